@@ -1,16 +1,113 @@
-//! eng-crypto: see /verif/DESIGN.md section 5 and /verif/harness/ENGINE_GUIDE.md
+//! eng-crypto: runtime monitors for C11 (bulletproofs), C07 (sigma protocols and
+//! transcript framing), C08 (identity credentials), C18 (attribute statement
+//! proofs and presentations). See /verif/DESIGN.md section 5 and
+//! /verif/harness/ENGINE_GUIDE.md.
+mod c11;
+mod common;
+
 use vmon_core::{ChildCtx, Engine, Plan, Shard, Tier};
 
 struct E;
 
+const SOUNDNESS: &str = "soundness clauses are only exercised with the cheating strategies implemented here (the library's own prover on false inputs, single-component perturbations, cross-instance splicing); 'no accepted forgery among the attempts made', not 'no forgery exists' (DESIGN.md section 7)";
+const RNG: &str = "all library randomness comes from a SplitMix64 stream wrapped as rand_core::RngCore + CryptoRng (deterministic, not cryptographically strong; irrelevant for completeness/binding checks)";
+
+fn floors(v: &[(&str, u64)]) -> Vec<(String, u64)> { v.iter().map(|(k, n)| (k.to_string(), *n)).collect() }
+
 impl Engine for E {
     fn name(&self) -> &'static str { "eng-crypto" }
 
-    fn props(&self) -> Vec<&'static str> { vec![] }
+    fn props(&self) -> Vec<&'static str> { vec!["C11"] }
 
-    fn plan(&self, _prop: &str, _tier: Tier) -> Plan { Plan::default() }
+    fn plan(&self, prop: &str, tier: Tier) -> Plan {
+        let quick = tier == Tier::Quick;
+        let mut p = Plan { assumptions: vec![SOUNDNESS.into(), RNG.into()], ..Plan::default() };
+        match prop {
+            "C11" => {
+                p.cases = if quick { 96 } else { 1800 };
+                p.timeout_s = if quick { 900 } else { 3 * 3600 };
+                p.rule = "case = one statement instance over BLS12-381 G1 with fresh generators/keys: idx%8 in {0,4} aggregated range proof (n,m cycled over {1,2,4,8,16,32,64}x{1,2,4,8}), 1 a<=b, 5 v in [a,b) (boundary plans cycled), {2,6} set membership, {3,7} set non-membership (sizes 1,2,3,4,5,8,9,16,17; v first/last/some/adjacent/absent). Ground truth by integer arithmetic in the harness. evaluations = judged prover+verifier executions (honest proof must verify; every single-component perturbation of proof/commitments/n/m/generators/keys/transcript/version and every proof the library's prover emits for a false statement must not verify). distinct_nontrivial = distinct true instances (hash of parameters and proof) whose honest proof verified and whose perturbations were all run".into();
+                p.assumptions.push("ground truth is u64/u128 integer comparison and set lookup in the harness; commitments to out-of-range values are computed by the harness with CommitmentKey::hide_worker (trusted: a 2-base multiexp)".into());
+                p.assumptions.push("proof components are perturbed on the serialized form (field offsets of RangeProof/SetMembershipProof/SetNonMembershipProof over G1) and re-deserialized with the library's Deserial".into());
+                let s = if quick { 1 } else { 10 };
+                p.floors = floors(&[
+                    ("complete.range", 40 * s),
+                    ("complete.leq", 10 * s),
+                    ("complete.in_range", 10 * s),
+                    ("complete.set_member", 30 * s),
+                    ("complete.set_nonmember", 15 * s),
+                    ("reject.expected", 2000 * s),
+                    ("range.n1", s),
+                    ("range.n2", s),
+                    ("range.n4", s),
+                    ("range.n8", s),
+                    ("range.n16", s),
+                    ("range.n32", s),
+                    ("range.n64", s),
+                    ("range.m1", 2 * s),
+                    ("range.m2", 2 * s),
+                    ("range.m4", 2 * s),
+                    ("range.m8", 2 * s),
+                    ("perturb.range.A", 40 * s),
+                    ("perturb.range.S", 40 * s),
+                    ("perturb.range.T_1", 40 * s),
+                    ("perturb.range.T_2", 40 * s),
+                    ("perturb.range.tx", 40 * s),
+                    ("perturb.range.tx_tilde", 40 * s),
+                    ("perturb.range.e_tilde", 40 * s),
+                    ("perturb.range.L", 40 * s),
+                    ("perturb.range.R", 40 * s),
+                    ("perturb.range.ip_a", 40 * s),
+                    ("perturb.range.ip_b", 40 * s),
+                    ("perturb.range.commitment", 40 * s),
+                    ("perturb.range.n", 40 * s),
+                    ("perturb.range.m", 20 * s),
+                    ("perturb.range.gens.G_replaced", 40 * s),
+                    ("perturb.range.gens.H_replaced", 40 * s),
+                    ("perturb.range.gens.permuted", 20 * s),
+                    ("perturb.range.transcript.domain", 40 * s),
+                    ("perturb.range.false_statement", 20 * s),
+                    ("false.range.via_prove", 5 * s),
+                    ("false.range.via_prove_given_scalars", 5 * s),
+                    ("boundary.leq.true", 10 * s),
+                    ("boundary.leq.false", 5 * s),
+                    ("boundary.in_range.true", 10 * s),
+                    ("boundary.in_range.false", 10 * s),
+                    ("in_range.plan.v=a", 2 * s),
+                    ("in_range.plan.v=b-1", 2 * s),
+                    ("in_range.plan.v=b", 2 * s),
+                    ("in_range.plan.a=b=v", 2 * s),
+                    ("leq.plan.a=b", 2 * s),
+                    ("leq.plan.a=b+1", 2 * s),
+                    ("boundary.set_member.true", 30 * s),
+                    ("boundary.set_member.false", 15 * s),
+                    ("boundary.set_nonmember.true", 15 * s),
+                    ("boundary.set_nonmember.false", 30 * s),
+                    ("set_member.size1", s),
+                    ("set_member.size3", s),
+                    ("set_member.size5", s),
+                    ("set_member.size9", s),
+                    ("set_nonmember.size1", s),
+                    ("set_nonmember.size3", s),
+                    ("set_nonmember.size5", s),
+                    ("set_nonmember.size9", s),
+                    ("perturb.set_member.set_makes_statement_false", 30 * s),
+                    ("perturb.set_nonmember.set_makes_statement_false", 15 * s),
+                    ("perturb.set_member.L", 20 * s),
+                    ("perturb.set_nonmember.L", 10 * s),
+                ]);
+            }
+            _ => {}
+        }
+        p
+    }
 
-    fn run_child(&self, _ctx: &ChildCtx, out: &mut Shard) { out.inconclusive.push("not implemented".into()); }
+    fn run_child(&self, ctx: &ChildCtx, out: &mut Shard) {
+        match ctx.prop.as_str() {
+            "C11" => c11::run(ctx, out),
+            _ => out.inconclusive.push("unknown property".into()),
+        }
+    }
 }
 
 fn main() { vmon_core::main_engine(&E) }
